@@ -389,6 +389,7 @@ VARIANTS = [
     M("empty-rows-not-stored", "model.py", "                tile.rowInfos.append(row_info)\n", "                if row_info.cell_count:\n                    tile.rowInfos.append(row_info)\n", "C07.R4"),
     M("lookup-narrowed", "containers.py", "paths = [k for k, v in self._file_store.items() if iwa_file in k]", "paths = [k for k in self._file_store if k.startswith(iwa_file) or k == f\"Index/{iwa_file}.iwa\"]", "C07.R1"),
     T("lookup-keys-only", "containers.py", "paths = [k for k, v in self._file_store.items() if iwa_file in k]", "paths = [name for name in self._file_store if iwa_file in name]"),
+    M("header-size-zero-for-default", "model.py", "                size=height,", "                size=0.0 if height == DEFAULT_ROW_HEIGHT else height,", "C07.R4"),
     M("drop-style-table-metadata", "model.py", "        self.add_component_metadata(style_table_id, \"CalculationEngine\", \"Tables/DataList-{}\")\n", "", "C07.R2"),
     M("tile-metadata-wrong-locator", "model.py", 'self.add_component_metadata(tile_id, "CalculationEngine", "Tables/Tile-{}")', 'self.add_component_metadata(tile_id, "CalculationEngine", "Tables/DataList-{}")', "C07.R2"),
     M("id-not-recorded", "containers.py", "        self._objects[PACKAGE_ID].last_object_identifier = self._max_id\n", "", "C07.R1"),
